@@ -1819,6 +1819,10 @@ impl<'a> Fx<'a> {
                     let mut observers = 0;
                     for c in comps {
                         match self.tyx(c) {
+                            // the task of a source: the subscriber's observer itself
+                            Some(Ty::Obs) => observers += 1,
+                            // the observable a `subscribe_on` task will subscribe
+                            Some(Ty::Inner) => vals.push(format!("Val.obs {}.id", self.expr(c)?)),
                             Some(Ty::Opt(t)) if *t == Ty::Obs => {
                                 let pl = self.place(c)?;
                                 if !(pl.root_self && pl.path == vec![Seg::Field("observer".into())]) {
@@ -1840,6 +1844,20 @@ impl<'a> Fx<'a> {
                         return bail("a task without (or with several) observers");
                     }
                     return Ok(format!("(Rs.Task.mk \"{}\" [{}])", fname, vals.join(", ")));
+                }
+                ("with_first_delay", 4) | ("new", 3) if full.len() == 2 && full[0] == "RepeatTask" => {
+                    // a repeating task: its tick function by name, the delay of the first run and the period
+                    let k = args.len();
+                    let fname = match args[k - 2] {
+                        Expr::Path(fp) => last_seg(&fp.path),
+                        _ => return bail("tick function"),
+                    };
+                    let mut vals = vec![];
+                    for a in &args[..k - 2] {
+                        vals.push(format!("Rs.ToVal.toVal {}", self.expr(a)?));
+                    }
+                    let kind = if name == "new" { "repeat_new" } else { "repeat" };
+                    return Ok(format!("(Rs.Task.mk \"{}:{}\" [{}])", kind, fname, vals.join(", ")));
                 }
                 ("new", 1) if full.len() == 2 && full[0] == "Box" && matches!(args[0], Expr::Closure(_)) => {
                     return self.stored_closure(args[0]);
@@ -2667,7 +2685,9 @@ pub fn translate_task_fn(items: &[Item], fname: &str, obs: &str, fields: &[&str]
             _ => None,
         })
         .ok_or(format!("fn {} not found", fname))?;
+    let obs = if obs == "@obs" { "Observer" } else { obs };
     let si = ctx.structs.get(obs).ok_or(format!("struct {} not translated", obs))?;
+    let bare = si.root_ty == Some(Ty::Obs);
     let mut names = vec![];
     fn idents(p: &Pat, out: &mut Vec<String>) {
         match p {
@@ -2686,11 +2706,41 @@ pub fn translate_task_fn(items: &[Item], fname: &str, obs: &str, fields: &[&str]
         return bail(format!("task fn {}: {} parameters, {} fields declared", fname, names.len(), fields.len()));
     }
     let mut aliases = HashMap::new();
-    for (n, fl) in names.iter().zip(fields.iter()) {
-        if si.field_ty(fl).is_none() {
-            return bail(format!("task fn {}: no field `{}` in {}", fname, fl, obs));
+    let mut locals: HashMap<String, Ty> = HashMap::new();
+    let mut extra_params = String::new();
+    if bare {
+        // the task of a SOURCE: it is handed the subscriber's observer itself (the state) and plain values
+        let g = generics_for(&f.sig.generics, &[], ctx, &HashMap::new())?;
+        let mut tys: Vec<Ty> = vec![];
+        for a in &f.sig.inputs {
+            if let FnArg::Typed(pt) = a {
+                match g.ty(&pt.ty)? {
+                    Ty::Tuple(ts) => tys.extend(ts),
+                    t => tys.push(t),
+                }
+            }
         }
-        aliases.insert(n.clone(), Place { root_self: true, local: String::new(), path: vec![Seg::Field(fl.to_string())] });
+        if tys.len() != names.len() {
+            return bail(format!("task fn {}: parameter types", fname));
+        }
+        for ((n, fl), t) in names.iter().zip(fields.iter()).zip(tys.into_iter()) {
+            if *fl == "observer" {
+                if t != Ty::Obs {
+                    return bail(format!("task fn {}: `{}` is not an observer", fname, n));
+                }
+                aliases.insert(n.clone(), Place { root_self: true, local: String::new(), path: vec![] });
+            } else {
+                write!(extra_params, " ({} : {})", n, t.lean()).unwrap();
+                locals.insert(n.clone(), t);
+            }
+        }
+    } else {
+        for (n, fl) in names.iter().zip(fields.iter()) {
+            if si.field_ty(fl).is_none() {
+                return bail(format!("task fn {}: no field `{}` in {}", fname, fl, obs));
+            }
+            aliases.insert(n.clone(), Place { root_self: true, local: String::new(), path: vec![Seg::Field(fl.to_string())] });
+        }
     }
     let mut fx = Fx {
         strukt: si,
@@ -2698,7 +2748,7 @@ pub fn translate_task_fn(items: &[Item], fname: &str, obs: &str, fields: &[&str]
         lines: vec![],
         ind: 1,
         tmp: 0,
-        locals: HashMap::new(),
+        locals,
         aliases,
         effectful: true,
         newtype: false,
@@ -2711,12 +2761,19 @@ pub fn translate_task_fn(items: &[Item], fname: &str, obs: &str, fields: &[&str]
     };
     let n = f.block.stmts.len();
     for (k, st) in f.block.stmts.iter().enumerate() {
-        if k + 1 == n && matches!(st, Stmt::Expr(Expr::Call(_), None)) {
-            continue; // `NormalReturn::new(())`
+        if k + 1 == n {
+            if let Stmt::Expr(e @ Expr::Call(c), None) = st {
+                // `NormalReturn::new(())` / `SubscribeReturn::new(source.actual_subscribe(observer))`: the value handed
+                // back to the scheduler; its argument may have effects
+                if !c.args.is_empty() && !matches!(c.args.first(), Some(Expr::Tuple(t)) if t.elems.is_empty()) {
+                    fx.expr(e).map_err(|e| format!("task fn {}: {}", fname, e))?;
+                }
+                continue;
+            }
         }
         fx.stmt(st).map_err(|e| format!("task fn {}: {}", fname, e))?;
     }
-    let mut d = format!("def {}.task_{} (self0 : {}) : Option ({} × Rs.Out) := do\n  let mut self_ := self0\n  let mut out : Rs.Out := []\n", obs, fname, obs, obs);
+    let mut d = format!("def {}.task_{} (self0 : {}){} : Option ({} × Rs.Out) := do\n  let mut self_ := self0\n  let mut out : Rs.Out := []\n", obs, fname, obs, extra_params, obs);
     for l in fx.lines {
         d += &l;
         d.push('\n');
@@ -2736,9 +2793,11 @@ pub fn translate_tick_fn(items: &[Item], fname: &str, obs: &str, ctx: &Ctx) -> R
             _ => None,
         })
         .ok_or(format!("fn {} not found", fname))?;
+    let obs = if obs == "@obs" { "Observer" } else { obs };
     let si = ctx.structs.get(obs).ok_or(format!("struct {} not translated", obs))?;
     let mut aliases = HashMap::new();
     let mut locals = HashMap::new();
+    let mut seq_param = String::new();
     for (k, a) in f.sig.inputs.iter().enumerate() {
         if let FnArg::Typed(pt) = a {
             if let Pat::Ident(pi) = &*pt.pat {
@@ -2746,6 +2805,9 @@ pub fn translate_tick_fn(items: &[Item], fname: &str, obs: &str, ctx: &Ctx) -> R
                 if k == 0 {
                     aliases.insert(n, Place { root_self: true, local: String::new(), path: vec![] });
                 } else {
+                    if !pi.ident.to_string().starts_with('_') {
+                        write!(seq_param, " ({} : Nat)", n).unwrap();
+                    }
                     locals.insert(n, Ty::Nat);
                 }
             }
@@ -2807,8 +2869,8 @@ pub fn translate_tick_fn(items: &[Item], fname: &str, obs: &str, ctx: &Ctx) -> R
     }
     tail_block(&mut fx, &f.block).map_err(|e| format!("tick fn {}: {}", fname, e))?;
     let mut d = format!(
-        "def {}.tick_{} (self0 : {}) (down : Bool) : Option ({} × Rs.Out × Bool) := do\n  let mut self_ := self0\n  let mut out : Rs.Out := []\n  let mut ret : Bool := false\n",
-        obs, fname, obs, obs
+        "def {}.tick_{} (self0 : {}) (down : Bool){} : Option ({} × Rs.Out × Bool) := do\n  let mut self_ := self0\n  let mut out : Rs.Out := []\n  let mut ret : Bool := false\n",
+        obs, fname, obs, seq_param, obs
     );
     for l in fx.lines {
         d += &l;
@@ -4017,6 +4079,14 @@ fn main() {
                         prefix: "Rx.Gen.RcObserver.".into(),
                         cells: vec![],
                     },
+                );
+            }
+            // the tasks / tick functions of a SOURCE work on the subscriber's observer itself
+            if ent.tasks.iter().any(|t| t.1 == "@obs") || ent.ticks.iter().any(|t| t.1 == "@obs") {
+                lean += "abbrev Observer := Rs.Obs\n\n";
+                ctx.structs.insert(
+                    "Observer".into(),
+                    StructInfo { name: "Observer".into(), fields: vec![], methods: HashMap::new(), root_ty: Some(Ty::Obs), prefix: String::new(), cells: vec![] },
                 );
             }
             for en in ent.enums {
